@@ -183,7 +183,14 @@ pub fn gen_case(prop: &str, tier: Tier, seed: u64, idx: u64) -> Option<Case> {
             }
         }
         "C06" => {
-            let o = GenOpts { hostile_pct: 8, hostile_cfg_pct: 4, reorder_pct: 40, audio_pct: 60, meta_pct: 20, encode_pct: 10, finish_games: r.chance(2, 3), max_video: 16, max_audio: 20, ..Default::default() };
+            let mut o = GenOpts { hostile_pct: 8, hostile_cfg_pct: 4, reorder_pct: 40, audio_pct: 60, meta_pct: 20, encode_pct: 10, finish_games: r.chance(2, 3), max_video: 16, max_audio: 20, ..Default::default() };
+            if r.chance(1, 8) {
+                // longer recordings: what the statistics report must not depend on how far back
+                // in decode order the deciding sample lies
+                o.max_video = 120;
+                o.max_audio = 160;
+                o.reorder_pct = 70;
+            }
             hist_case(gen_history(r, &o))
         }
         "C07" => return Some(mon_c07_case(r)),
